@@ -185,4 +185,4 @@ def strategy(draw):
 
 
 def subchecks(tier):
-    return [Sub("ism", ism_case, strategy=strategy, n_quick=4000, n_thorough=60000, shards_quick=4)]
+    return [Sub("ism", ism_case, strategy=strategy, n_quick=4000, n_thorough=150000, shards_quick=4)]
